@@ -38,6 +38,26 @@ def run(chk, tier, seed):
                               f'{r["pattern"]!r} flags={r["fl"]} on tree {r["tree"]}: {kind}: {w}',
                               f"import sys; sys.path.insert(0, {REPO!r}); sys.path.insert(0, '/verif')\nfrom wcmatch import glob\nfrom vlib.harness import trees\n"
                               f"with trees.Tree({specs[r['tree']]!r}) as t:\n    print(glob.glob({r['pattern']!r}, flags={r['flags']} | glob.U, root_dir=t.root)[:20])\nsys.exit(1)\n")
+    # globmatch(REALPATH) applies the same symlink rule to the path it is given (compared with glob on the link trees)
+    from vlib.spec import pat as P
+    star_pats = [p for p in globrun.small_patterns() if '**' in P.render(p)]
+    items2 = [(tn, specs[tn], [(p, f, None) for f in (G.G, G.G | G.D, G.GL | G.E, G.G | G.L) for p in star_pats]) for tn in ('links', 'deep2')]
+    for res in pmap(globrun.globmatch_vs_glob, items2, chunk=1):
+        for r in res:
+            if r['kind'] == 'error':
+                chk.broke(f'C06 globmatch harness crashed: {r["error"]}')
+            elif r['kind'] == 'compare':
+                n += 1
+                chk.case(key=('gm', r['tree'], r['pattern'], r['flags']), nontrivial=r['n'] > 0)
+                for kind in ('only_glob', 'only_match'):
+                    if r[kind]:
+                        chk.violation(dict(obligation='C06.bounded.globmatch(REALPATH)_applies_the_same_symlink_rule_as_glob', tree=r['tree'], pattern=r['pattern'], fl=r['fl'], kind=kind,
+                                           witness=r[kind][0]),
+                                      f'tree {r["tree"]} pattern {r["pattern"]!r} flags {r["fl"]}: ' + (f'glob returns {r[kind][:4]}, globmatch(REALPATH) rejects' if kind == 'only_glob'
+                                                                                                   else f'globmatch(REALPATH) accepts {r[kind][:4]}, glob does not return them'),
+                                      f"import sys; sys.path.insert(0, {REPO!r}); sys.path.insert(0, '/verif')\nfrom wcmatch import glob\nfrom vlib.harness import trees\n"
+                                      f"with trees.Tree({specs[r['tree']]!r}) as t:\n    print([(c, glob.globmatch(c, {r['pattern']!r}, flags={r['flags']} | glob.U | glob.P, root_dir=t.root)) for c in {r[kind][:4]!r}])\n"
+                                      f"    print(glob.glob({r['pattern']!r}, flags={r['flags']} | glob.U, root_dir=t.root))\nsys.exit(1)\n")
     chk.rule = ('bounded stand-in: trees with symlinks to ancestors, siblings, files, hidden directories and nowhere (2 hand-made + 2 cyclic + seeded random); patterns with **/*** in '
                 'any position x flag sets; os.scandir is wrapped: without FOLLOW/*** no directory may be listed through a symlink that the pattern does not write literally, the number '
                 'of listings is bounded by the number of real directories, every case finishes within the alarm; WcMatch without SYMLINKS terminates and never walks through a link')
